@@ -129,6 +129,27 @@ static void check_message(const Algo<H>& A, const MsgId& id, const std::string& 
     if (A.hexuc_ptr(m.data(), (std::uint32_t)m.size()) != hexuc(raw)) verif::fail(key + ":_hex_uc(ptr,size)", id.str());
     if (A.hexuc_sv(tlx::string_view(m.data(), m.size())) != hexuc(raw)) verif::fail(key + ":_hex_uc(string_view)", id.str());
 
+    {   // empty chunks given as a range without storage (data() == nullptr: a default-constructed view, the
+        // data()/size() of an empty vector) before, inside and after the message
+        verif::context() = "null-range";
+        H h;
+        size_t cut = m.size() ? rng.below(m.size() + 1) : 0;
+        h.process(static_cast<const void*>(nullptr), 0);
+        h.process(m.data(), (std::uint32_t)cut);
+        h.process(tlx::string_view());
+        h.process(m.data() + cut, (std::uint32_t)(m.size() - cut));
+        h.process(static_cast<const void*>(nullptr), 0);
+        if (h.digest() != raw) verif::fail(key + ":null-range-chunk", id.str() + " with process(nullptr, 0) / process(string_view()) calls in between");
+        if (m.size() == 0) {
+            if (H(tlx::string_view()).digest() != raw || H(static_cast<const void*>(nullptr), 0).digest() != raw ||
+                A.hex_sv(tlx::string_view()) != hexlc(raw) || A.hexuc_sv(tlx::string_view()) != hexuc(raw) ||
+                A.hex_ptr(nullptr, 0) != hexlc(raw) || A.hexuc_ptr(nullptr, 0) != hexuc(raw))
+                verif::fail(key + ":null-range-message", "the empty message given as a range without storage");
+            verif::count(std::string("null_range_messages:") + A.name);
+        }
+        verif::context() = "";
+    }
+
     auto expect = [&](const std::vector<size_t>& cuts, bool sv, const char* what) {
         std::string d = digest_chunked<H>(msg, cuts, sv);
         if (d != raw) {
@@ -247,6 +268,62 @@ static void huge_one(const Algo<H>& A, const char* msg, size_t L, Rng& rng) {
     verif::count(std::string("huge_single_calls:") + A.name);
 }
 
+// An independent SipHash-2-4 (written from the paper, byte-wise little-endian loads, 64-bit length), used
+// where the python oracle would take hours: messages of 4 GiB and more. It is itself compared with the
+// python oracle's value on every short message of mode=sip (the logged value is tlx's, and this one must
+// equal it there), and anchored on the paper's test vector below.
+static uint64_t ref_siphash24(const uint8_t key[16], const uint8_t* m, uint64_t len) {
+    auto ld = [](const uint8_t* p) { uint64_t v = 0; for (int i = 7; i >= 0; --i) v = (v << 8) | p[i]; return v; };
+    auto rotl = [](uint64_t x, int b) { return (x << b) | (x >> (64 - b)); };
+    uint64_t k0 = ld(key), k1 = ld(key + 8);
+    uint64_t v0 = k0 ^ 0x736f6d6570736575ull, v1 = k1 ^ 0x646f72616e646f6dull, v2 = k0 ^ 0x6c7967656e657261ull, v3 = k1 ^ 0x7465646279746573ull;
+    auto round = [&]() {
+        v0 += v1; v1 = rotl(v1, 13); v1 ^= v0; v0 = rotl(v0, 32);
+        v2 += v3; v3 = rotl(v3, 16); v3 ^= v2;
+        v0 += v3; v3 = rotl(v3, 21); v3 ^= v0;
+        v2 += v1; v1 = rotl(v1, 17); v1 ^= v2; v2 = rotl(v2, 32);
+    };
+    uint64_t full = len / 8;
+    for (uint64_t i = 0; i < full; ++i) { uint64_t w = ld(m + 8 * i); v3 ^= w; round(); round(); v0 ^= w; }
+    uint64_t last = (len & 0xff) << 56;
+    for (uint64_t i = 0; i < len % 8; ++i) last |= (uint64_t)m[8 * full + i] << (8 * i);
+    v3 ^= last; round(); round(); v0 ^= last;
+    v2 ^= 0xff; round(); round(); round(); round();
+    return v0 ^ v1 ^ v2 ^ v3;
+}
+
+static void huge_sip(Rng& rng, uint64_t index) {
+    {   // anchor: appendix A of the SipHash paper
+        uint8_t key[16], m[15];
+        for (int i = 0; i < 16; ++i) key[i] = (uint8_t)i;
+        for (int i = 0; i < 15; ++i) m[i] = (uint8_t)i;
+        if (ref_siphash24(key, m, 15) != 0xa129ca6149be45e5ull) { verif::fail("C14:harness:reference-siphash-broken", "the harness's reference SipHash-2-4 fails the paper's test vector"); return; }
+    }
+    const size_t G4 = (size_t)1 << 32;
+    const size_t L = index % 2 == 0 ? G4 + 77 : G4 - 3;   // just above and just below 2^32 bytes
+    void* mem = mmap(nullptr, L, PROT_READ, MAP_PRIVATE | MAP_ANONYMOUS | MAP_NORESERVE, -1, 0);
+    if (mem == MAP_FAILED) { verif::count("huge_mmap_failed"); return; }
+    const uint8_t* msg = static_cast<const uint8_t*>(mem);
+    uint8_t key[16];
+    for (int i = 0; i < 16; ++i) key[i] = (uint8_t)rng.next();
+    verif::context() = "siphash";
+    g_trace.assign(1, "siphash of " + std::to_string(L) + " zero bytes");
+    uint64_t want = ref_siphash24(key, msg, L);
+    uint64_t a = tlx::siphash_plain(key, msg, L), b = tlx::siphash(key, msg, L);
+#if defined(__SSE2__)
+    uint64_t c = tlx::siphash_sse2(key, msg, L);
+#else
+    uint64_t c = want;
+#endif
+    munmap(mem, L);
+    if (a != want || b != want || c != want)
+        verif::fail("C14:siphash:huge-message", "message of " + std::to_string(L) + " zero bytes, key " + verif::hex_bytes(key, 16) + ": SipHash-2-4 is " +
+                    std::to_string(want) + ", siphash_plain " + std::to_string(a) + ", siphash " + std::to_string(b) + ", siphash_sse2 " + std::to_string(c));
+    verif::count("siphash_huge_messages");
+    verif::cover(std::string("huge:siphash:len=2^32") + (L > G4 ? "+77" : "-3"));
+    verif::sample("huge: siphash (plain, sse2, dispatcher) of " + std::to_string(L) + " zero bytes vs an independent SipHash-2-4");
+}
+
 static void mode_huge(Rng& rng, uint64_t index) {
     static const size_t P = (size_t)1 << 29;
     static const std::vector<size_t> LS = { P + 63, P, P + 64 + 1, P + P / 2 + 5, 2 * P + 3, 4 * P - 1 };
@@ -306,6 +383,7 @@ static void mode_sip(Rng& rng, uint64_t index) {
                 verif::fail("C14:siphash:plain-vs-sse2", where + " plain=" + std::to_string(a) +
                             " siphash()=" + std::to_string(b) + " sse2=" + std::to_string(c));
             if (a != first) verif::fail("C14:siphash:alignment", where);
+            if (off == 0 && ref_siphash24(key, buf, len) != a) verif::fail("C14:siphash:value", where + " harness reference SipHash-2-4 = " + std::to_string(ref_siphash24(key, buf, len)));
             verif::count("siphash_evaluations", 3);
         }
         {   // the same message in a block without slack behind it (exact size under ASan)
@@ -341,6 +419,7 @@ static void run_case(Rng& rng, uint64_t index) {
     if (mode == "len") mode_len(rng, index);
     else if (mode == "long") mode_long(rng, index);
     else if (mode == "huge") mode_huge(rng, index);
+    else if (mode == "hugesip") huge_sip(rng, index);
     else mode_sip(rng, index);
     verif::count("chunkings_compared", g_chunkings - c0);
 }
